@@ -34,6 +34,9 @@ type Op struct {
 	Filter string `json:"filter,omitempty"` // all even odd  (every handler has a recording filter)
 	ID     int    `json:"id,omitempty"`
 	Any    bool   `json:"any,omitempty"` // pub: through the static type any
+	// Live (pub): published with a cancellable context that is never
+	// cancelled while the case runs - a request-scoped context.
+	Live bool `json:"live,omitempty"`
 }
 
 type Case struct {
@@ -105,6 +108,10 @@ func accepts(f string, id int) bool {
 	}
 	return true
 }
+
+// liveCancels keeps the cancel functions of request-scoped publish contexts alive.
+var liveCancels sync.Map
+var liveSeq atomic.Int64
 
 type world struct {
 	opts  *busmodel.OptSource // nil = fresh option values; shared = one value per kind for the whole case
@@ -203,10 +210,16 @@ func (w *world) execOp(task, idx int, op Op) {
 		p.ret = 1 << 60
 		h.mu.Unlock()
 		rec.call = p.call
+		pctx := context.Background()
+		if op.Live {
+			var cancel context.CancelFunc
+			pctx, cancel = context.WithCancel(pctx)
+			liveCancels.Store(liveSeq.Add(1), cancel) // kept alive, never called during the case
+		}
 		if op.Any {
-			tops.PubAny(w.bus, context.Background(), op.ID)
+			tops.PubAny(w.bus, pctx, op.ID)
 		} else {
-			tops.Pub(w.bus, context.Background(), op.ID)
+			tops.Pub(w.bus, pctx, op.ID)
 		}
 		h.mu.Lock()
 		p.ret = h.stamp()
@@ -479,6 +492,23 @@ func check(c *Case, w *world, o *vkit.Outcome) {
 				if ra != nil && rb != nil && ra.subRet < rb.subCall && len(p.filters[a]) == 1 && len(p.filters[b]) == 1 && p.filters[a][0] > p.filters[b][0] {
 					fail("publish %d: registration %s was subscribed before %s but evaluated after it", p.id, a, b)
 				}
+			}
+		}
+	}
+	// once: a registration fires for the first publish it is owed: not for a
+	// publish that was called after an earlier eligible one had returned
+	for k, fs := range fired {
+		r := h.regs[k]
+		if r == nil || !r.once || len(fs) != 1 {
+			continue
+		}
+		q := fs[0].pub
+		for _, p := range h.pubs {
+			if p == q || p.id >= probeBase || p.t != r.key.t || !(p.ret < q.call) || !accepts(r.filter, p.id) {
+				continue
+			}
+			if r.subRet < p.call && !calledBefore(removalsOf(r, nil, p), p.ret) {
+				fail("Once registration %s ran for publish %d, which was called after publish %d had returned; it was subscribed before publish %d was called, nothing had removed it and its filter accepts that event: the earlier publish is the one it was owed", k, q.id, p.id, p.id)
 			}
 		}
 	}
